@@ -198,6 +198,53 @@ fn deep_nesting(obs: &mut Obs, _thorough: bool) -> Res {
     Ok(())
 }
 
+/// valid queries in which ONE token or one run is long (beyond 2^8, 2^10, 2^12, 2^16 characters): names in
+/// every notation, string literals, patterns, fractions, exponents, runs of blanks, selections and chains
+fn long_tokens(obs: &mut Obs, thorough: bool) -> Res {
+    let sizes: Vec<usize> = if thorough { vec![255, 256, 257, 1023, 1025, 4097, 65535, 65536, 65537, 100_000, 300_000] } else { vec![255, 257, 1025, 4097, 65535, 65537, 100_000] };
+    let mut n = 0;
+    for &k in &sizes {
+        let units = ["a", "\u{e9}", "\u{4e2d}", "\u{1d11e}", "_", "a1"];
+        let mut cases: Vec<String> = vec![];
+        for u in units {
+            let name = u.repeat(k / u.chars().count().max(1));
+            cases.push(format!("$.{}", name));
+            cases.push(format!("$..{}.a", name));
+            cases.push(format!("$['{}']", name));
+            cases.push(format!("$[?@.{} == '{}']", name, name));
+        }
+        let half = k / 2;
+        cases.push(format!("$[\"{}\"]", "\\n".repeat(half)));
+        cases.push(format!("$['{}']", "\\u00e9".repeat(k / 6)));
+        cases.push(format!("$['{}']", "\\uD834\\uDD1E".repeat(k / 12)));
+        cases.push(format!("$['{}']", " ".repeat(k)));
+        cases.push(format!("$[?@.a == \"{}\"]", "'".repeat(k)));
+        cases.push(format!("$[?match(@.a, '{}')]", "a".repeat(k)));
+        cases.push(format!("$[?search(@.a, '{}')]", "[ab]".repeat(k / 4)));
+        cases.push(format!("$[?@.a == 1.{}1]", "0".repeat(k)));
+        cases.push(format!("$[?@.a == 0.{}]", "9".repeat(k)));
+        cases.push(format!("$[?@.a == 1e{}1]", "0".repeat(k)));
+        cases.push(format!("$[?@.a == 1E-{}2]", "0".repeat(k)));
+        cases.push(format!("$[{b}0{b}:{b}1{b}:{b}1{b}]", b = " ".repeat(k / 6)));
+        cases.push(format!("$[?{b}@.a{b}=={b}1{b}]", b = "\n".repeat(k / 4)));
+        cases.push(format!("$[?@.a{}==1]", "\t".repeat(k)));
+        cases.push(format!("$[{}0]", "1,".repeat(half)));
+        cases.push(format!("$[{}'a']", "'a',".repeat(k / 4)));
+        cases.push(format!("$[{}?@.a]", "?@.b,".repeat(k / 5)));
+        cases.push(format!("${}", ".a".repeat(half)));
+        cases.push(format!("$[?@{} == 1]", "['a']".repeat(k / 5)));
+        cases.push(format!("$[?@.a == 1{}]", " || @.a == 2".repeat(k / 12)));
+        cases.push(format!("$[?@.a{}]", " && @.b".repeat(k / 7)));
+        for s in cases {
+            must_accept(&s, None, obs, "long-token box")?;
+            n += 1;
+        }
+    }
+    obs.boxes.push(json!({"box": "valid queries with one long token or run: shorthand / bracket names (ASCII, 2-, 3-, 4-byte characters, escapes, surrogate pairs, blanks), string literals, patterns, fractions, exponents with leading zeros, runs of blanks, selections, chains, singular queries, || and && chains",
+                          "sizes": sizes, "queries": n, "exhaustive": true}));
+    Ok(())
+}
+
 fn direct(case: &Value, obs: &mut Obs) -> Res {
     let s = case["query"].as_str().unwrap_or("");
     must_accept(s, None, obs, "regression file")
@@ -216,6 +263,7 @@ pub fn prop() -> Prop {
         ],
         subs: vec![
             Sub { name: "deep-nesting", kind: Kind::Exhaustive(deep_nesting) },
+            Sub { name: "long-tokens", kind: Kind::Exhaustive(long_tokens) },
             Sub { name: "random-sentences", kind: Kind::Random { f: random_sentences, quick: 160_000, thorough: 3_200_000, len: 600 } },
             Sub { name: "random-doc-guided", kind: Kind::Random { f: random_doc_guided, quick: 64_000, thorough: 1_280_000, len: 500 } },
             Sub { name: "random-valid-after-rejected", kind: Kind::Random { f: random_valid_after_rejected, quick: 160_000, thorough: 3_200_000, len: 900 } },
